@@ -229,6 +229,14 @@ structure Cfg where
   as found, at its OLD path - which no longer exists when an ancestor directory
   was renamed in the same delta, the renames being finished by then -/
   kindChangeAtNew : Bool := false
+  /-- `upload_symlink` hands its paths to `Transport.symlink` WITHOUT `urlutils.escape` (every other
+  operation escapes): the paths at which creating a symlink therefore raises InvalidURL (link path or
+  target path with a non-ASCII character or a percent sign; computed by the check from the real names -
+  the model itself sees name tokens).  Empty for an uploader that escapes. -/
+  badLinks : List Path := []
+  /-- `delete_remote_file` swallows NoSuchFile for `.bzrignore` / `.bzrignore-upload` (which a full upload
+  never copies); as found (`false`) it does not -/
+  tolerantSpecialDelete : Bool := false
   deriving DecidableEq, Repr
 
 def symlinkStep (c : Cfg) (p : Path) (t : String) : Step :=
@@ -340,7 +348,12 @@ def lift (s : State) : Except Err Node → State × Option Err
 
 /-- one step: the state reached and the error raised, if any -/
 def exec (c : Cfg) (t : Tree) (s : State) : Step → State × Option Err
-  | .delete p => lift s (tDelete s.root p)
+  | .delete p =>
+    match tDelete s.root p with
+    | .ok r => ({ s with root := r }, none)
+    | .error e =>
+      if c.tolerantSpecialDelete && (p == [".bzrignore"] || p == [".bzrignore-upload"]) && e == .noSuchFile then (s, none)
+      else (s, some e)
   | .rmdir p => lift s (tRmdir s.root p)
   | .rmdirMaybe p =>
     match tRmdir s.root p with
@@ -358,7 +371,7 @@ def exec (c : Cfg) (t : Tree) (s : State) : Step → State × Option Err
     let r := finishDel s.root s.pendingDel.reverse
     ({ s with root := r.1, pendingDel := [] }, r.2)
   | .mkdir p => lift s (tMkdir s.root p)
-  | .symlink p tg => lift s (doSymlink s.root p tg)
+  | .symlink p tg => if c.badLinks.contains p then (s, some .invalidURL) else lift s (doSymlink s.root p tg)
   | .fileRobust p =>
     match forceClear c s.root p with
     | .ok r => lift { s with root := r } (doUploadFile t r p p)
@@ -366,7 +379,9 @@ def exec (c : Cfg) (t : Tree) (s : State) : Step → State × Option Err
   | .symlinkRobust p tg =>
     -- the robust variant passes `normpath(dirname(p)/target)`, which does lie below the link's directory
     match forceClear c s.root p with
-    | .ok r => lift { s with root := r } (tSymlink r p tg)
+    | .ok r =>
+      if c.badLinks.contains p then ({ s with root := r }, some .invalidURL)
+      else lift { s with root := r } (tSymlink r p tg)
     | .error e => (s, some e)
   | .mkdirRobust p =>
     match lookup s.root p with
@@ -399,7 +414,93 @@ def Step.paths : Step → List Path
   | .delete p | .rmdir p | .rmdirMaybe p | .mkdir p | .symlink p _ | .fileRobust p
   | .symlinkRobust p _ | .mkdirRobust p => [p]
   | .uploadFile dst _ => [dst]
-  | .stage old k _ => [old, stamp k]
+  | .stage old k new => [old, stamp k, new]
   | .finishRenames | .finishDeletions | .fail _ => []
+
+/-! ### what the remote looks like, and "the remote equals the tree" -/
+
+/-- what a listing of the remote shows at one path -/
+inductive Obs where
+  | file (content : String) (exec : Bool)
+  | link (target : String)
+  | dir
+  deriving DecidableEq, Repr
+
+def Node.obs : Node → Obs
+  | .file c x => .file c x
+  | .link t => .link t
+  | .dir _ => .dir
+
+/-- the listing of the remote at `p` -/
+def look (root : Node) (p : Path) : Option Obs := (lookup root p).map Node.obs
+
+def TEnt.obs (e : TEnt) : Obs :=
+  match e.kind with
+  | .file => .file e.content e.exec
+  | .symlink => .link e.target
+  | .dir => .dir
+
+/-- the listing of the tree at `p` -/
+def Tree.look (t : Tree) (p : Path) : Option Obs := (t.find p).map TEnt.obs
+
+def kindAt (t : Tree) (p : Path) : Option Kind := (t.find p).map (·.kind)
+
+/-- the two files a full upload never copies (an incremental upload does) -/
+def special (p : Path) : Bool := p == [".bzrignore"] || p == [".bzrignore-upload"]
+
+/-- `a` is a child of `b` -/
+def isChildOf (a b : Path) : Bool := a != [] && a.dropLast == b
+
+def pairwiseB {α : Type} (r : α → α → Bool) : List α → Bool
+  | [] => true
+  | a :: l => l.all (r a) && pairwiseB r l
+
+/-- entry `e` may follow the entries `pre` in `iter_entries_by_dir` order: a
+real path, not seen before, its parent directory listed before it -/
+def parentOK (pre : Tree) (e : TEnt) : Bool :=
+  e.path != [] && !(pre.any fun d => d.path == e.path)
+    && (e.path.dropLast == [] || kindAt pre e.path.dropLast == some .dir)
+    && !(special e.path && e.kind == .dir)
+
+def wfFrom : Tree → Tree → Bool
+  | _, [] => true
+  | pre, e :: r => parentOK pre e && wfFrom (pre ++ [e]) r
+
+/-- a tree as `iter_entries_by_dir` lists it (without the root): distinct
+non-empty paths, every parent directory listed before its children; the two
+special names are not directories -/
+def treeWF (t : Tree) : Bool := wfFrom [] t
+
+/-- `d` is a correct delta from `old` to `new` (on the paths that are not
+ignored) in which no entry is renamed: what `Tree.changes_from` yields for such
+a pair, with `removed` and `added` listing parents before children.  The same
+path may be removed and added (a new file id at an old path).  The special
+files are neither removed nor changed in kind (`special_file_removed_witness`). -/
+def deltaOK (ign : List String) (old new : Tree) (d : Delta) : Bool :=
+  let ok := fun (p : Path) => !ignored ign p
+  let rm := d.removed.filter fun r => ok r.path
+  let kc := d.kindChanged.filter fun k => ok k.path
+  let ad := d.added.filter ok
+  let md := d.modified.filter ok
+  let rmP := rm.map (·.path)
+  let kcP := kc.map (·.path)
+  let kidsGone := fun (p : Path) => old.all fun e => !(isChildOf e.path p && ok e.path) || rmP.contains e.path
+  (d.renamed.all fun r => ignored ign r.old && ignored ign r.new)
+  && (rm.all fun r => r.path != [] && !special r.path && kindAt old r.path == some r.kind
+        && ((new.find r.path).isNone || ad.contains r.path) && (r.kind != .dir || kidsGone r.path))
+  && pairwiseB (fun a b => a.path != b.path && !isChildOf a.path b.path) rm
+  && (kc.all fun k => k.old == k.path && k.path != [] && !special k.path && kindAt old k.path == some k.oldKind
+        && kindAt new k.path == some k.newKind && k.oldKind != k.newKind && !rmP.contains k.path
+        && (k.oldKind != .dir || kidsGone k.path))
+  && pairwiseB (fun a b => a.path != b.path) kc
+  && (ad.all fun p => p != [] && ((old.find p).isNone || rmP.contains p) && (new.find p).isSome)
+  && pairwiseB (fun a b => a != b && !isChildOf a b) ad
+  && (md.all fun p => p != [] && match old.find p, new.find p with
+        | some o, some e => o.kind == e.kind && e.kind != .dir
+        | _, _ => false)
+  && (old.all fun o => !(ok o.path) || (new.find o.path).isSome || rmP.contains o.path)
+  && (new.all fun e => !(ok e.path) || ad.contains e.path || match old.find e.path with
+        | none => false
+        | some o => if o.kind != e.kind then kcP.contains e.path else (o.obs == e.obs || md.contains e.path))
 
 end BreezyVerif.C43
